@@ -7,8 +7,10 @@ ALPHA = [0, 1, 2, 3, 63, 64, 0x80, 0xBF, 0xC0, 0xC1, 0xFF, ord('a')]
 RULE = ("bounded-exhaustive: every buffer of length <= L (L=4 quick, 5 thorough) over the alphabet "
         "{0,1,2,3,63,64,0x80,0xBF,0xC0,0xC1,0xFF,'a'} at every start offset; plus seeded structured buffers: label runs at the "
         "63-byte and 254/255-byte limits, pointer chains, pointers to self / forward / past the end / into the middle of labels, "
-        "names ending exactly at the end of the buffer. non-trivial = the name decodes; distinct = distinct outputs")
+        "names ending exactly at the end of the buffer, names of 125..128 labels and 253..256 bytes continued through a pointer after any "
+        "number of labels. non-trivial = the name decodes; distinct = distinct outputs")
 CASE_TIMEOUT = 600
+STACK_KB = 256   # name decoding needs a constant amount of stack (see pC01)
 
 
 def structured(rng, n):
@@ -82,6 +84,23 @@ def cases(rng, tier):
             buf += b"\x01" + bytes([97 + i % 26]) + bytes([0xC0 | (last >> 8), last & 0xFF])
             last = here
         out.append("NAME %s %x" % (bytes(buf).hex(), last))
+    # names at the limits (127 labels / 255 bytes, and one past them) whose tail, down to the bare root byte, is reached through
+    # a pointer placed after any number of their labels
+    shapes = [[1] * n for n in (125, 126, 127, 128)] + [[63, 63, 63, k] for k in (59, 60, 61, 62)] + [[63, 63, 63, 30, 30], [2] * 84 + [1], [2] * 85]
+    for sizes in shapes:
+        labels = [bytes([97 + i % 26]) * l for i, l in enumerate(sizes)]
+        n = len(labels)
+        for j in sorted(set([0, 1, 2, n // 2, n - 2, n - 1, n])):
+            buf = bytearray(b"\x07padding")
+            tail_at = len(buf)
+            for l in labels[j:]:
+                buf += bytes([len(l)]) + l
+            buf += b"\x00"
+            here = len(buf)
+            for l in labels[:j]:
+                buf += bytes([len(l)]) + l
+            buf += bytes([0xC0 | (tail_at >> 8), tail_at & 0xFF]) + b"\x01\x02"
+            out.append("NAME %s %x" % (bytes(buf).hex(), here))
     # pointers with a non-zero high part (targets >= 256) and at the 14-bit limit
     for tgt in (255, 256, 257, 0x123, 0x3FF, 0x400, 0x7FF, 0x800, 0xFFF, 0x1000, 0x1234, 0x1FFF, 0x2000, 0x2001, 0x2ABC, 0x3000, 0x3FF0, 0x3FFA):
         buf = bytearray(rng.bytes(tgt))
